@@ -1113,10 +1113,14 @@ Definition ex_tgt : expr :=
   ESum [EVar "d"; ECall (EVar "f") [ESum [EVar "a"; EProd [EVar "p"; EVar "q"]]] [("k", EVar "c")]].
 
 Example ex_match_ok :
-  call_fn_is_symbol ex_tpl = true /\
+  call_fn_is_symbol ex_tpl = true /\ call_fn_is_symbol ex_tgt = true /\
+  NoDup (map fst (pre_list (Some [("z", EVar "d")]))) /\
   match_model (fun _ _ => false) pym_ident (Some ["x"; "y"; "z"]) [] (Some [("z", EVar "d")]) ex_tpl ex_tgt
   = MOk [("z", EVar "d"); ("x", EProd [EVar "p"; EVar "q"]); ("y", EInt 1)] false.
-Proof. split; vm_compute; reflexivity. Qed.
+Proof.
+  split; [reflexivity|]. split; [reflexivity|]. split; [repeat constructor; intros []|].
+  vm_compute. reflexivity.
+Qed.
 
 Example ex_match_err_unify :
   match_model (fun _ _ => false) pym_ident (Some ["x"; "y"]) [] None
